@@ -327,7 +327,15 @@ def sk1(model):
                     if isinstance(a, ast.Attribute) and a.attr in marks and i < len(tgt.args.args):
                         names[tgt.args.args[i].arg] = a.attr
 
+        mod_consts = {c.value for c in ast.walk(f.mod.tree) if isinstance(c, ast.Constant) and isinstance(c.value, str)}
+
         def is_mark(e):
+            if isinstance(e, ast.Call) and getattr(e.func, 'id', '') == 'getattr' and len(e.args) >= 2 \
+                    and unparse(e.args[0]).endswith('parms') and (set(marks) & mod_consts):
+                a1 = e.args[1]
+                if isinstance(a1, ast.Constant):
+                    return a1.value in marks
+                return True     # the attribute name is a parameter; the module names the marks as strings
             return (isinstance(e, ast.Attribute) and e.attr in marks) or (isinstance(e, ast.Name) and e.id in names)
 
         nodes = list(iter_scope(fn))
@@ -963,8 +971,8 @@ def lt3(model):
                    'call sites (table LT3_ALLOWED in the checker) use it, nothing else - in particular no macro '
                    'handler looks for "the next visible token" with it', floor=5)
     isp = model.func('scanner.Buffer.is_space')
-    accepts = any(unparse(x).endswith('LanguageToken') for n in ast.walk(isp.node)
-                  if isinstance(n, (ast.Tuple, ast.List, ast.Set)) for x in n.elts)
+    from .. import tok as T
+    accepts = 'LanguageToken' in T.is_space_classes(model)
     if not accepts:
         r.ok(isp.node, 'is_space() does not accept LanguageToken: skip_space() is harmless', nontrivial=True)
         r.instances += 5
@@ -1315,6 +1323,18 @@ def skp1(model):
     f = model.func('parser.Parser.expand_macro')
     isp = model.func('scanner.Buffer.is_space')
     isp_ret = [n.value for n in iter_scope(isp.node) if isinstance(n, ast.Return) and n.value is not None]
+    # local names of is_space that are bound once (typ = type(tok)) are substituted into its return expression
+    import copy as _c0
+    binds = {}
+    for n in iter_scope(isp.node):
+        if isinstance(n, ast.Assign) and len(n.targets) == 1 and isinstance(n.targets[0], ast.Name):
+            binds.setdefault(n.targets[0].id, []).append(n.value)
+    one = {k: v[0] for k, v in binds.items() if len(v) == 1}
+    if one and len(isp_ret) == 1:
+        class _Sub(ast.NodeTransformer):
+            def visit_Name(self, n):
+                return _c0.deepcopy(one[n.id]) if n.id in one and isinstance(n.ctx, ast.Load) else n
+        isp_ret = [_Sub().visit(_c0.deepcopy(isp_ret[0]))]
     isp_par = isp.params[1] if len(isp.params) > 1 else 'tok'
     loops = [n for n in iter_scope(f.node) if isinstance(n, ast.While)
              and any(isinstance(c, ast.Call) and T_call_name(c) == 'next' for s in n.body for c in ast.walk(s))]
